@@ -12,7 +12,8 @@
 (*                                                                         *)
 (* Formulas: add_p1p1, double_p1p1, nielsadd2_p1p1 and pnielsadd_p1p1 with  *)
 (* both sign bits, p1p1_to_partial / full, full_to_pniels, nielsadd2,       *)
-(* pnielsadd.  Checked against the affine addition law for ALL pairs of     *)
+(* pnielsadd, and cofactor_equal.go (geSub, CofactorMultiply, IsNeutral,    *)
+(* CofactorEqual).  Checked against the affine addition law for ALL pairs of *)
 (* points - equal, opposite, neutral, of order 2, 4, 8, mixed order - and   *)
 (* several projective scalings: the result represents P + Q (P - Q), its Z  *)
 (* is non-zero (completeness), a full result satisfies T Z = X Y, and no    *)
@@ -123,6 +124,18 @@ Double(p)        == P1p1ToFull(DoubleP1p1(p))
 DoublePartial(p) == P1p1ToPartial(DoubleP1p1(p))
 Add(p, q)        == P1p1ToFull(AddP1p1(p, q))
 
+\* cofactor_equal.go: geSub (P - Q through a pniels operand), CofactorMultiply, IsNeutralVartime, CofactorEqual, ProjectiveToExtended
+GeSub(p, q) ==
+    LET rx0 == F(p[2] + p[1])   ry0 == F(p[2] - p[1])
+        rz0 == F(rx0 * q[1])    ry1 == F(ry0 * q[2])
+        rt0 == F(q[4] * p[4])
+        t0  == F(2 * F(p[3] * q[3]))
+    IN  <<F(rz0 - ry1), F(rz0 + ry1), F(t0 - rt0), F(t0 + rt0)>>
+CofactorMultiply(p) == P1p1ToFull(DoubleP1p1(P1p1ToFull(DoubleP1p1(P1p1ToFull(DoubleP1p1(p))))))
+IsNeutralV(r) == r[1] = 0 /\ r[2] = r[3]
+CofactorEqual(p, q) == IsNeutralV(CofactorMultiply(P1p1ToFull(GeSub(p, FullToPniels(q)))))
+ProjectiveToExtended(p) == <<F(p[1] * p[3]), F(p[2] * p[3]), F(p[3] * p[3]), F(p[1] * p[2]), TRUE>>
+
 \* what a pniels value stands for: X = (xaddy - ysubx) / 2, Y = (xaddy + ysubx) / 2, Z = z, T = t2d / 2d
 PnielsAff(n) == LET i2 == Inv(2) IN <<F(F(F(n[2] - n[1]) * i2) * Inv(n[3])), F(F(F(n[2] + n[1]) * i2) * Inv(n[3]))>>
 PnielsOk(n)  == n[3] # 0 /\ F(F(n[4] * Inv(Ec2d)) * n[3]) = F(F(F(n[2] - n[1]) * Inv(2)) * F(F(n[2] + n[1]) * Inv(2)))
@@ -207,6 +220,12 @@ FormulasExact == pc = "ab" =>
         /\ FullOk(P1p1ToFull(PnielsAddP1p1(p, pq, 0)), sum) /\ FullOk(P1p1ToFull(PnielsAddP1p1(p, pq, 1)), dif)
         /\ FullOk(NielsAdd2(p, nq), sum)
         /\ PnielsOk(pq) /\ PnielsAff(pq) = pb
+        /\ FullOk(P1p1ToFull(GeSub(p, pq)), dif)
+        /\ FullOk(CofactorMultiply(p), AMul(8, pa))
+        /\ IsNeutralV(CofactorMultiply(p)) = (AMul(8, pa) = Neutral)                  \* isSmallOrderVartime
+        /\ (CofactorMultiply(p)[1] = 0 \/ CofactorMultiply(p)[2] = CofactorMultiply(p)[3]) = IsNeutralV(CofactorMultiply(p))   \* after [8] the point (0,-1) cannot occur
+        /\ CofactorEqual(p, q) = (AMul(8, dif) = Neutral)                             \* equal up to torsion, in any scaling
+        /\ FullOk(ProjectiveToExtended(<<p[1], p[2], p[3], 0, FALSE>>), pa)
         /\ PnielsOk(PnielsAdd(p, pq)) /\ PnielsAff(PnielsAdd(p, pq)) = sum
 \* the group itself: closed, the law agrees with repeated addition of the generator (associativity on the whole group)
 GroupExact == pc = "ab" => AAdd(pa, pb) \in E /\ OnCurve(AAdd(pa, pb)[1], AAdd(pa, pb)[2])
